@@ -82,7 +82,7 @@ fn nth_perm(n: usize, mut k: usize) -> Vec<usize> {
 
 impl<C: Suite> M06<C> {
     pub fn new(tier: Tier, _seed: u64) -> Self {
-        let ns: Vec<usize> = if tier.thorough() { (2..=NMAX).collect() } else { vec![2, 3, 4, 5, 8, 16, 17] };
+        let ns: Vec<usize> = if tier.thorough() { (2..=NMAX).collect() } else { vec![2, 3, 4, 5, 8, 16, 17, 63, 64] };
         let nk = ns.iter().max().unwrap() + 1;
         let sks: Vec<SecretKey<C>> = (0..nk).map(|i| SecretKey::<C>::from_hash(format!("c06-key-{}", i))).collect();
         let pks = sks.iter().map(|s| s.public_key()).collect();
@@ -182,6 +182,10 @@ impl<C: Suite> Model for M06<C> {
                     }
                 }
                 for i in 0..n {
+                    // quick tier: every position up to n = 17, selected positions for the two large lists
+                    if !self.tier.thorough() && n > 17 && !(i < 2 || i == n / 2 || i + 2 >= n) {
+                        continue;
+                    }
                     a.push(Act::Edit(Edit::AlterMsg(i)));
                     a.push(Act::Edit(Edit::AlterKey(i)));
                     a.push(Act::Edit(Edit::Drop(i)));
@@ -196,6 +200,9 @@ impl<C: Suite> Model for M06<C> {
                     }
                 } else {
                     for i in 0..n - 1 {
+                        if !self.tier.thorough() && n > 17 && !(i < 2 || i + 3 >= n) {
+                            continue;
+                        }
                         a.push(Act::Edit(Edit::SwapMsgs(i, i + 1)));
                     }
                 }
@@ -367,5 +374,5 @@ pub fn models(tier: Tier, seed: u64) -> Vec<Box<dyn DynModel>> {
 pub fn describe(tier: Tier, r: &mut Report) {
     r.rule = "list-edit machine: initial states = honest aggregate over (scheme, n, message pattern in {distinct, one duplicated pair, all equal}); one action edits the verification list (every permutation for n<=4, reverse/rotate/swaps above; alter message i, alter key i, drop i, re-add i for every i; add a foreign pair; swap the messages of signers i,j for all i<j when n<=6, adjacent above); from_signatures is a sequence machine over all scheme sequences of length <= 3. Decisions are compared with the reference CoreAggregateVerify + Basic's distinct-message rule and with the decision table of the property".into();
     r.deviation_bound_completed = "1 edit per list; sequences of length 3 for from_signatures".into();
-    r.alphabet.insert("n".into(), serde_json::json!(if tier.thorough() { "every n in 2..=64 (reference on every state for n<=8, on the honest list and end-position edits above)" } else { "n in {2,3,4,5,8,16,17}, reference on every state for n<=8" }));
+    r.alphabet.insert("n".into(), serde_json::json!(if tier.thorough() { "every n in 2..=64 (reference on every state for n<=8, on the honest list and end-position edits above)" } else { "n in {2,3,4,5,8,16,17} with every edit position, n in {63,64} with edits at both ends and the middle; reference on every state for n<=8 and on the honest list and end-position edits above" }));
 }
